@@ -208,6 +208,9 @@ class AbstractAst:
         self.vars.add(var)
 
     def get_value(self, phi_name):
+        if phi_name not in self.phi_name_to_node_dict and phi_name in self.var_object_dict:
+            # a declared variable that does not occur in the specification
+            return self.var_object_dict[phi_name]
         node = self.phi_name_to_node_dict[phi_name]
         return self.results[node]
 
